@@ -36,7 +36,7 @@ RefCfg(c) == [mode |-> c.mode, lax |-> c.lax, maxLine |-> c.maxLine, maxField |-
 (* ------------------------------------------------------------------------ *)
 SoftNames(st, kind) == LET x == Softs(st, kind) IN [i \in 1..Len(x) |-> x[i].name]
 HasSoft(st, name) == \E i \in 1..Len(st.soft) : st.soft[i].name = name
-UrlSoft(st) == HasSoft(st, "AbsTargetAuthorityAccepted") \/ HasSoft(st, "ConnectTargetAccepted")
+UrlSoft(st) == HasSoft(st, "AbsTargetAuthorityAccepted") \/ HasSoft(st, "ConnectTargetUnchecked")
                \/ HasSoft(st, "AbsTargetExotic") \/ HasSoft(st, "TargetCTLAccepted") \/ HasSoft(st, "TargetObsText")
 Hdrs(m) == [i \in 1..Len(m.fields) |-> <<m.fields[i][1], m.fields[i][2]>>]
 AsciiOnly(q) == AllB(q, LAMBDA b : b < 128)
@@ -71,8 +71,8 @@ ForeignName(e) == IF e.exc # "" /\ ~e.excHttp THEN e.exc
                   ELSE IF e.eofExc # "" /\ ~e.eofHttp THEN e.eofExc ELSE "payload"
 
 \* message-by-message comparison; result "" or the first mismatch clause
-RECURSIVE MsgsClause(_, _, _, _, _, _, _)
-MsgsClause(st, R, E, i, cfg, q, n) ==
+RECURSIVE MsgsClause(_, _, _, _, _, _, _, _)
+MsgsClause(st, R, E, i, cfg, q, n, part) ==
     IF i > Len(E) THEN ""
     ELSE LET im == E[i] IN
          IF i <= Len(R) THEN
@@ -81,20 +81,20 @@ MsgsClause(st, R, E, i, cfg, q, n) ==
              IN IF h # "" THEN h
                 ELSE IF rm.kind = "tunnel" THEN
                     \* CONNECT: everything after the head belongs to the tunnel, not to HTTP
-                    IF IsPrefix(im.body, Slice(q, st.tailFrom, n)) THEN MsgsClause(st, R, E, i + 1, cfg, q, n)
+                    IF IsPrefix(im.body, Slice(q, st.tailFrom, n)) THEN MsgsClause(st, R, E, i + 1, cfg, q, n, part)
                     ELSE "TunnelBytes"
                 ELSE IF ImplComplete(im) THEN
                     IF im.body # rm.body THEN "BodyMismatch"
                     ELSE IF rm.kind = "chunked" /\ im.chunksKnown /\ im.chunks # rm.chunks THEN "ChunkBoundaries"
-                    ELSE MsgsClause(st, R, E, i + 1, cfg, q, n)
+                    ELSE MsgsClause(st, R, E, i + 1, cfg, q, n, part)
                 ELSE IF ~IsPrefix(im.body, rm.body) THEN "BodyMismatch"
-                ELSE MsgsClause(st, R, E, i + 1, cfg, q, n)
-         ELSE IF i = Len(R) + 1 /\ Partial(st) THEN
+                ELSE MsgsClause(st, R, E, i + 1, cfg, q, n, part)
+         ELSE IF i = Len(R) + 1 /\ part THEN
              LET h == HeadClause(st.cur, im, cfg)
              IN IF h # "" THEN h
                 ELSE IF ImplComplete(im) THEN "CompletedPartialMessage"
                 ELSE IF ~IsPrefix(im.body, st.cur.body) THEN "BodyMismatch"
-                ELSE MsgsClause(st, R, E, i + 1, cfg, q, n)
+                ELSE MsgsClause(st, R, E, i + 1, cfg, q, n, part)
          ELSE IF st.phase \in {"closed", "undecided"} THEN ""   \* bytes after a closing message are not processed by a
                                                                 \* connection; beyond an undecided point nothing is compared
          ELSE "ExtraMessage"
@@ -148,19 +148,24 @@ PendingOver(st, q, n, e, cfg) ==
 (* Judge one parser-level outcome.  Result [bad, devs, drift].                *)
 JudgeParse(st, q, n, e, cfg) ==
     LET fin == Final(st, n)
-        R == FinalMsgs(st)
+        \* without an end-of-stream signal a close-delimited body is still open
+        R == IF e.fedEof THEN FinalMsgs(st) ELSE st.msgs
+        part == Partial(st) \/ (~e.fedEof /\ st.phase = "eofbody")
         E == Effective(e.msgs)
         rej == ImplRejected(e)
         devNames == SoftNames(st, "dev")
         altNames == SoftNames(st, "alt")
-        mc == MsgsClause(st, R, E, 1, cfg, q, n)
+        mc == MsgsClause(st, R, E, 1, cfg, q, n, part)
         cc == CallsClause(e, cfg)
         res(b, d, f) == [bad |-> b, devs |-> d, drift |-> f]
     IN
-    IF Foreign(e) THEN
+    IF e.kind = "client" /\ Len(e.loopExc) > 0 THEN res("ConnForeignException", <<>>, <<e.loopExc[1]>>)
+    ELSE IF Foreign(e) THEN
         \* C10 Total: only HttpProcessingError subclasses may leave feed_data / feed_eof
         IF ForeignName(e) = "ValueError" /\ UrlSoft(st) THEN res("", <<"UrlValueErrorEscapes">>, <<>>)
         ELSE res("ForeignException", <<>>, <<ForeignName(e)>>)
+    \* client connection: a parser error becomes a client error on the protocol and the transport is closed
+    ELSE IF e.kind = "client" /\ e.exc # "" /\ ~e.closed THEN res("ClientErrorNotClosed", <<>>, <<e.exc>>)
     ELSE IF cc # "" THEN res(cc, <<>>, <<>>)
     ELSE IF e.pendingInput /\ ~rej /\ mc = ""
             /\ (fin = "reject" \/ Len(E) < Len(R) \/ \E i \in 1..Min2(Len(R), Len(E)) : ~ImplComplete(E[i]) /\ R[i].kind # "tunnel") THEN
@@ -169,7 +174,7 @@ JudgeParse(st, q, n, e, cfg) ==
         res("", <<"StalePauseStall">>, <<>>)
     ELSE IF fin = "reject" /\ ~rej /\ st.over /\ st.between THEN res("", <<"LimitByCallPosition">>, <<>>)
     ELSE IF fin = "reject" /\ ~rej /\ PendingOver(st, q, n, e, cfg) /\ mc = "" THEN res("", <<>>, <<"OverLimitInLastRead">>)
-    ELSE IF fin = "reject" /\ ~rej /\ st.reason = "ChunkDataCRCRLF" THEN res("", <<"LaxChunkCRSegDependent">>, <<>>)
+    ELSE IF fin = "reject" /\ ~rej /\ st.reason \in {"ChunkDataCRCRLF", "TrailerLeadingCR"} THEN res("", <<"LaxChunkCRSegDependent">>, <<>>)
     ELSE IF fin = "reject" /\ ~rej /\ ~PendingReject(st, q, n) /\ ~(st.over /\ st.between) THEN
         res(IF st.over THEN "AcceptedOverLimit" ELSE "AcceptedMalformed", <<>>, <<st.reason>>)
     ELSE IF mc # "" THEN
@@ -218,18 +223,26 @@ Statuses(st) == [i \in 1..Len(st.msgs) |-> st.msgs[i].code]
 Written(e) == ParseWritten(Init0, e.written, [i \in 1..Len(e.dispatched) |-> e.dispatched[i].method = M_HEAD], 1)
 ConnCodes(e) == Statuses(Written(e))
 
+\* what BaseRequest.raw_path shows for an absolute-form target: scheme://authority stripped
+RelOf(t) ==
+    LET c == IndexOfByte(t, COLON)
+    IN IF c = 0 \/ Len(t) < c + 2 \/ t[c + 1] # 47 \/ t[c + 2] # 47 THEN t
+       ELSE LET e == FirstIn(t, c + 3, Len(t), LAMBDA b : b \in {47, 63, 35})
+            IN IF e = 0 THEN <<>> ELSE DropN(t, e - 1)
+SameTarget(seen, t) == seen = t \/ (Len(t) > 0 /\ t[1] # 47 /\ seen = RelOf(t))
+
 RECURSIVE DispClause(_, _, _, _)
 DispClause(st, R, D, i) ==
     IF i > Len(D) THEN ""
     ELSE LET d == D[i] IN
          IF i <= Len(R) THEN
              IF d.method # UpperSeq(R[i].method) THEN "MethodMismatch"
-             ELSE IF d.target # R[i].target THEN "TargetMismatch"
+             ELSE IF ~SameTarget(d.target, R[i].target) THEN "TargetMismatch"
              ELSE IF d.bstate = "ok" /\ R[i].kind # "tunnel" /\ d.body # R[i].body THEN "BodyMismatch"
              ELSE DispClause(st, R, D, i + 1)
          ELSE IF i = Len(R) + 1 /\ Partial(st) THEN
              IF d.method # UpperSeq(st.cur.method) THEN "MethodMismatch"
-             ELSE IF d.target # st.cur.target THEN "TargetMismatch"
+             ELSE IF ~SameTarget(d.target, st.cur.target) THEN "TargetMismatch"
              ELSE IF d.bstate = "ok" THEN "CompletedPartialMessage"
              ELSE DispClause(st, R, D, i + 1)
          ELSE "ExtraRequestDispatched"
@@ -279,7 +292,7 @@ JudgeConn(st, q, n, e, cfg) ==
         ELSE res("", devNames, altNames)
 
 Judge(st, q, n, e, cfg) ==
-    IF e.kind = "conn" THEN JudgeConn(st, q, n, e, cfg) ELSE JudgeParse(st, q, n, e, cfg)
+    IF e.kind = "conn" THEN JudgeConn(st, q, n, e, cfg) ELSE JudgeParse(st, q, n, e, cfg)   \* "parse" and "client"
 
 (* ------------------------------------------------------------------------ *)
 (* C03: the outcomes of one stream under different segmentations agree.      *)
@@ -306,7 +319,7 @@ GroupClause(st, q, n, evs, cfg) ==
             THEN [bad |-> "", devs |-> <<>>]                                                       \* one read of slack
        ELSE IF dis /\ ((st.phase = "closed" /\ st.tailFrom <= n) \/ \E i \in 1..Len(evs) : evs[i].excAfterClose)
             THEN [bad |-> "", devs |-> <<"DataAfterCloseSegDependent">>]
-       ELSE IF dis /\ st.reason = "ChunkDataCRCRLF" THEN [bad |-> "", devs |-> <<"LaxChunkCRSegDependent">>]
+       ELSE IF dis /\ st.reason \in {"ChunkDataCRCRLF", "TrailerLeadingCR"} THEN [bad |-> "", devs |-> <<"LaxChunkCRSegDependent">>]
        ELSE IF \E i \in 1..Len(evs) : evs[i].pendingInput THEN [bad |-> "", devs |-> <<"StalePauseStall">>]
        ELSE IF st.between THEN [bad |-> "", devs |-> <<"LimitByCallPosition">>]
        ELSE IF dis /\ st.tight THEN [bad |-> "", devs |-> <<"LimitCutBeforeLF">>]
